@@ -763,7 +763,7 @@ class _Gen:
         return self.draw(_ints(0, n - 1)) if n > 1 else 0
 
     def chance(self, pct: int) -> bool:
-        return self.draw(_ints(0, 99)) < pct
+        return self.draw(_ints(0, 99)) >= 100 - pct  # a zero draw (the shrink target) never takes the optional branch
 
     def pick(self, seq: Any) -> Any:
         return seq[self.i(len(seq))]
@@ -811,7 +811,7 @@ class _Gen:
         return self.const(t)
 
     def expr(self, env: _Env, t: str, d: int = 2) -> dict[str, Any]:
-        if self.has("illtyped") and self.draw(_ints(0, 199)) < 3:
+        if self.has("illtyped") and self.draw(_ints(0, 199)) >= 197:
             other = self.pick([x for x in TYPES if x != t])
             e = dict(self._expr(env, other, min(d, 1)))
             e["ill"] = True
